@@ -60,6 +60,18 @@ func (in *Interp) nondet(name string, s Sort) *Term {
 	if n > 0 {
 		full = fmt.Sprintf("%s#%d", name, n)
 	}
+	if in.fixed != nil {
+		// concrete re-execution of a counterexample: inputs take the model's values
+		v := in.fixed[sanitizeKeep(full)]
+		switch s.K {
+		case SBool:
+			return in.F.Bool(v != 0)
+		case SFP64:
+			return in.F.Float(math.Float64frombits(v))
+		default:
+			return in.F.Const(s.W, v)
+		}
+	}
 	t := in.F.Var(sanitizeKeep(full), s)
 	in.inputs = append(in.inputs, t)
 	return t
@@ -132,6 +144,16 @@ func init() {
 	v("SymSet16", func(in *Interp, a []Value) Value {
 		name := in.conStr(a[0], "SymSet16")
 		n := int(in.concreteInt(a[1].(*Term), "SymSet16 domain"))
+		if in.fixed != nil {
+			in.nextObj++
+			m := &MapV{id: in.nextObj, idx: map[string]int{}}
+			for i := 0; i < n; i++ {
+				if in.fixed[fmt.Sprintf("%s_%d", sanitizeKeep(name), i)] != 0 {
+					in.mapSet(m, in.F.Const(16, uint64(i)), &StructV{})
+				}
+			}
+			return m
+		}
 		arr := in.F.ArrayVar(sanitizeKeep(name), 16, 1)
 		for i := 0; i < n; i++ {
 			in.probes = append(in.probes, probe{name: fmt.Sprintf("%s_%d", sanitizeKeep(name), i), t: in.F.Select(arr, in.F.Const(16, uint64(i)))})
